@@ -14,7 +14,7 @@ func init() { registry["C12"] = propC12 }
 func propC12() *Property {
 	return &Property{
 		ID:          "C12",
-		Explanation: "Structural clauses of link numbering. Decided: (R1) in every markup renderer each label printed by style.Link / style.LinkBlock is the length of the link list taken immediately after its own append — no call that can append to the same list lies between the append and the evaluation of len — and every append has exactly one label; (R2) label and lookup are inverse: attachments are labelled len(bodyLinks)+i+1 for slot i and SelectLink(k) reads attachments[k-1-len(bodyLinks)] and bodyLinks[k-1] (linear forms composed to the identity); body/bodyLinks and bio/bioLinks come from the same GetMarkup call; Activity delegates rendering and selection to the same target; (R3) every index in the SelectLink implementations is provably within 0..len-1 (numbers outside 1..N open nothing); (R4) Markdown returns the link list of its HTML rendering unchanged; (R7) every producer whose results are stored into a link list and its error field (attachments/attachmentsErr, bodyLinks/bodyErr, bioLinks/bioErr) returns an empty list whenever its error can be non-nil — the renderers print no numbers when the error is set, while SelectLink looks at the list only; (R6) style.superscript prints digit k as the Unicode superscript of k for all ten digits and emits the decimal digits of the number most significant first (strings.Map over the decimal representation, a loop over it that appends, or a divide-by-ten loop that prepends). (R1, addition) from every append to a link list every way to a return of that function passes the label call that shows its number: no target is listed on a path that shows no number. (R9) a link number is typed digit by digit: exactly the ten digits are taken, a digit outside selection mode starts from an empty buffer, the mode is selection afterwards. NOT decided: that superscripts survive wrapping at every width and that link order is width-independent (string values).",
+		Explanation: "Structural clauses of link numbering. Decided: (R1) in every markup renderer each label printed by style.Link / style.LinkBlock is the length of the link list taken immediately after its own append — no call that can append to the same list lies between the append and the evaluation of len — and every append has exactly one label; (R2) label and lookup are inverse: attachments are labelled len(bodyLinks)+i+1 for slot i and SelectLink(k) reads attachments[k-1-len(bodyLinks)] and bodyLinks[k-1] (linear forms composed to the identity); body/bodyLinks and bio/bioLinks come from the same GetMarkup call; Activity delegates rendering and selection to the same target; (R3) every index in the SelectLink implementations is provably within 0..len-1 (numbers outside 1..N open nothing); (R4) Markdown returns the link list of its HTML rendering unchanged; (R7) every producer whose results are stored into a link list and its error field (attachments/attachmentsErr, bodyLinks/bodyErr, bioLinks/bioErr) returns an empty list whenever its error can be non-nil — the renderers print no numbers when the error is set, while SelectLink looks at the list only; (R6) style.superscript prints digit k as the Unicode superscript of k for all ten digits and emits the decimal digits of the number most significant first (strings.Map over the decimal representation, a loop over it that appends, or a divide-by-ten loop that prepends). (R1, addition) from every append to a link list every way to a return of that function passes the label call that shows its number: no target is listed on a path that shows no number. (R9) a link number is typed digit by digit: exactly the ten digits are taken, a digit outside selection mode starts from an empty buffer, the mode is selection afterwards. (R1, addition) the text handed to a label call is not a slice or a strings.Trim* result: the number goes behind the whole rendering of what it labels. NOT decided: that superscripts survive wrapping at every width and that link order is width-independent (string values).",
 		Assumptions: []string{"len/append semantics of Go slices"},
 		Rules: []Rule{
 			{ID: "C12.R1", Title: "a link's label is taken at its own append", Floor: 6, Run: c12R1},
@@ -113,6 +113,22 @@ func c12R1(c *Ctx) {
 			nLabels++
 			num := call.Call.Args[len(call.Call.Args)-1]
 			pos := P.InstrPos(in)
+			// the number goes behind everything the labelled element rendered: a rendering that is cut
+			// first (trimmed, sliced) loses the blank lines that end an inner numbered element, and its
+			// number and this one are then shown as one
+			if len(call.Call.Args) >= 2 {
+				cut := ""
+				switch x := unwrapLoad(call.Call.Args[0]).(type) {
+				case *ssa.Slice:
+					cut = "a slice expression"
+				case *ssa.Call:
+					if sc := x.Call.StaticCallee(); sc != nil && sc.Pkg != nil && sc.Pkg.Pkg.Path() == "strings" && strings.HasPrefix(sc.Name(), "Trim") {
+						cut = "strings." + sc.Name()
+					}
+				}
+				c.check(cut == "", fname+"/label-after-whole-text", pos, fname, "the label follows the whole rendering of what it labels",
+					"the text that gets the number is cut first ("+cut+"): the separators that end an inner link or media element (whose own number comes last in it) are gone, and the two numbers are displayed as one number that opens something else")
+			}
 			lc, ok := num.(*ssa.Call)
 			isLen := false
 			if ok {
